@@ -42,6 +42,10 @@ def main():
                     rep = json.load(open(path))
                     fi = rep.get("failing_input") or {}
                     detail = f" broken={[b['name'][:60] for b in rep['broken']][:3]} oracle={fi.get('oracle')}"
+                    out[p]["broken"] = [b["name"] for b in rep["broken"]][:6]
+                    out[p]["failing_input_oracle"] = fi.get("oracle")
+                    out[p]["failing_input_what"] = str(fi.get("what", ""))[:300]
+                    out[p]["no_failing_input_found"] = "no-failing-input-found" in l
             print(f"{sid} -> {p}: exit={c.returncode} {lines}{detail}")
     finally:
         sh("git -C /repo checkout -- . ; find /repo -name '*.orig' -delete; find /repo -name '*.rej' -delete")
@@ -50,7 +54,10 @@ def main():
         shutil.rmtree(evbak, ignore_errors=True)
         sh(f"cd {ROOT} && /venv/bin/python tools/translate.py")  # regenerate Gen/ from the restored tree
     assert sh("git -C /repo status --porcelain").stdout.strip() == "", "/repo not clean after revert"
-    json.dump(out, open(os.path.join(ROOT, "seeded", sid, f"eval_{tier}.json"), "w"), indent=1)
+    ef = os.path.join(ROOT, "seeded", sid, f"eval_{tier}.json")
+    prev = json.load(open(ef)) if os.path.exists(ef) else {}
+    prev.update(out)   # one entry per check, latest run wins
+    json.dump(prev, open(ef, "w"), indent=1, sort_keys=True)
     return 0
 
 
